@@ -41,6 +41,7 @@ const (
 	fpBinaryPrefixSeek = "C03:binary-primary-prefix-seek"
 	fpSplitIDMissing   = "C03:missing-splitid-attribute-fails-search"
 	fpAbsentPanic      = "C03:not-present-on-primary-attribute-panics"
+	fpMixedPrimary     = "C03:mixed-numeric-and-string-filters-on-primary"
 )
 
 // target abstracts meta.DB and shard.Shard.
@@ -173,6 +174,15 @@ func safeSearch(tg *target, cnr cid.ID, ofs []objectcore.SearchFilter, attrs []s
 	return tg.search(cnr, ofs, attrs, cur, p)
 }
 
+func safeSelect(tg *target, cnr cid.ID, fs object.SearchFilters) (res []oid.Address, err error) {
+	defer func() {
+		if r := recover(); r != nil {
+			err = fmt.Errorf("PANIC in Select: %v", r)
+		}
+	}()
+	return tg.sel(cnr, fs)
+}
+
 func fmtItems(v []refsearch.Item) string {
 	var b strings.Builder
 	for i, it := range v {
@@ -229,8 +239,16 @@ func classify(view []refsearch.Obj, q refsearch.Query) []string {
 	var r []string
 	if len(q.Attrs) > 0 && len(q.Filters) > 1 && !refsearch.IDOrdered(q) {
 		for _, f := range q.Filters[1:] {
-			if f.Key == q.Filters[0].Key && f.Op != refsearch.OpNE {
+			if f.Key == q.Filters[0].Key && f.Op != refsearch.OpNE && f.Op != refsearch.OpAbsent &&
+				refsearch.IsNumeric(f.Op) == refsearch.IsNumeric(q.Filters[0].Op) {
 				r = append(r, fpPrimaryEarlyStop)
+				break
+			}
+		}
+		for _, f := range q.Filters[1:] {
+			if f.Key == q.Filters[0].Key && f.Op != refsearch.OpAbsent &&
+				refsearch.IsNumeric(f.Op) != refsearch.IsNumeric(q.Filters[0].Op) {
+				r = append(r, fpMixedPrimary)
 				break
 			}
 		}
@@ -400,8 +418,24 @@ func runCorpus(t *rapid.T, rec *ev.Recorder, open func(*stor.Epoch) (*target, er
 		}
 		// set-level view through the deprecated Select (ordered by the 1st filter's attribute)
 		if verdict == refsearch.Valid && tg.sel != nil && qi%2 == 0 {
-			addrs, err := tg.sel(cnr, q.SDK())
+			qa := q
+			if len(q.Filters) > 0 {
+				qa.Attrs = []string{q.Filters[0].Key}
+			}
+			selKnown := func() bool {
+				for _, cls := range classify(view, qa) {
+					if rec.Known(cls) {
+						rec.Label("known-" + cls)
+						return true
+					}
+				}
+				return false
+			}
+			addrs, err := safeSelect(tg, cnr, q.SDK())
 			if err != nil {
+				if strings.HasPrefix(err.Error(), "PANIC") && !selKnown() {
+					t.Fatalf("Select: %v\nquery: %s\ncorpus: %s", err, q, cjs)
+				}
 				rec.Label("select-rejected")
 				continue
 			}
@@ -420,20 +454,8 @@ func runCorpus(t *rapid.T, rec *ev.Recorder, open func(*stor.Epoch) (*target, er
 			}
 			sort.Strings(a)
 			sort.Strings(b)
-			if strings.Join(a, ",") != strings.Join(b, ",") {
-				known := false
-				qa := q
-				if len(q.Filters) > 0 {
-					qa.Attrs = []string{q.Filters[0].Key}
-				}
-				for _, cls := range classify(view, qa) {
-					if rec.Known(cls) {
-						known = true
-					}
-				}
-				if !known {
-					t.Fatalf("Select: expected %v, got %v\nquery: %s\ncorpus: %s", b, a, q, cjs)
-				}
+			if strings.Join(a, ",") != strings.Join(b, ",") && !selKnown() {
+				t.Fatalf("Select: expected %v, got %v\nquery: %s\ncorpus: %s", b, a, q, cjs)
 			}
 			rec.Label("select-compared")
 		}
